@@ -96,7 +96,7 @@ NewEndpoint(cfg, isn, rnxt0, pwnd0, now) ==
       idleWr   |-> 0, idleFin |-> 0, finAnsDue |-> 0, resetAt |-> 0, slotDue |-> 0, drainDue |-> 0,
       probeQ   |-> FALSE,      \* a size probe is queued or outstanding (nothing more is segmented meanwhile)
       \* bookkeeping
-      txCount  |-> 0, rxCount |-> 0, lastRxAt |-> now, lastWire |-> now,
+      txCount  |-> 0, rxCount |-> 0, synAcks |-> 0, lastRxAt |-> now, lastWire |-> now,
       tRtx     |-> -1, tAck |-> -1, idleArmed |-> -1, ringCap |-> cfg.tx_init, txPending |-> FALSE,
       released |-> -1,
       state    |-> "new",
